@@ -96,6 +96,11 @@ pub struct ModeOracle {
     marks_checked: u64,
     /// report only the clause about acknowledgement marks (used by C15)
     marks_only: bool,
+    /// World A, per endpoint: acknowledgement groups in the ack frames read in the call in
+    /// progress, and groups the sender examined in it (tap AckGroupSeen)
+    groups_read: BTreeMap<usize, u64>,
+    groups_examined: BTreeMap<usize, u64>,
+    group_checks: u64,
 }
 
 impl ModeOracle {
@@ -106,12 +111,37 @@ impl ModeOracle {
     }
 
     pub fn new(property: &'static str) -> Self {
-        Self { property, conns: BTreeMap::new(), index: ConnIndex::default(), steps: BTreeMap::new(), fragments_seen: 0, resends_seen: 0, ts_emitted: 0, ts_deadline_checked: 0, acked_fragments: 0, emissions_after_ack_checked: 0, passed_packets: 0, marks_checked: 0, marks_only: false }
+        Self { property, conns: BTreeMap::new(), index: ConnIndex::default(), steps: BTreeMap::new(), fragments_seen: 0, resends_seen: 0, ts_emitted: 0, ts_deadline_checked: 0, acked_fragments: 0, emissions_after_ack_checked: 0, passed_packets: 0, marks_checked: 0, marks_only: false, groups_read: BTreeMap::new(), groups_examined: BTreeMap::new(), group_checks: 0 }
     }
 }
 
 impl Oracle for ModeOracle {
     fn on(&mut self, rec: &Rec, cx: &Cx) -> Option<Violation> {
+        // every acknowledgement group of an ack frame that a half connection reads is examined
+        // on its own (World A, where the harness hands every frame to the half connection)
+        if !self.marks_only {
+            match rec {
+                Rec::Trace { ep, ev: T::AckGroupSeen { .. }, .. } if matches!(cx.plan.endpoints[*ep].kind, EndpointKind::Hc { .. }) => {
+                    *self.groups_examined.entry(*ep).or_insert(0) += 1;
+                }
+                Rec::Consumed { ep, bytes, .. } if bytes.first() == Some(&FRAME_ACK) && matches!(cx.plan.endpoints[*ep].kind, EndpointKind::Hc { .. }) => {
+                    if let Some(uv::Frame::AckFrame(f)) = uv::Frame::read(bytes) {
+                        *self.groups_read.entry(*ep).or_insert(0) += f.frame_acks.len() as u64;
+                    }
+                }
+                Rec::CallEnd { call, ep: Some(ep), panic } => {
+                    let read = self.groups_read.remove(ep).unwrap_or(0);
+                    let examined = self.groups_examined.remove(ep).unwrap_or(0);
+                    if panic.is_none() && read > 0 {
+                        self.group_checks += 1;
+                        if examined != read {
+                            return viol(self.property, "ack_group_not_examined", format!("endpoint {}: the ack frames read in this call carry {} acknowledgement groups, but only {} were examined: whether a group counts must not depend on the other groups of its frame", ep, read, examined), *call);
+                        }
+                    }
+                }
+                _ => (),
+            }
+        }
         let v = self.on_all(rec, cx);
         match v {
             Some(v) if self.marks_only && v.clause != "marked_acknowledged_without_ack" => None,
